@@ -144,7 +144,8 @@ def deprecatedToUsefulText(ctx:model.Documentable, name:str, deprecated:ast.Call
     if replacement is not None and not validate_identifier(replacement):
         # The replacement is not an identifier, so don't even try to resolve it.
         # By adding extras backtics, we make the replacement a literal text.
-        replacement = replacement.replace('\n', ' ')
+        # docutils splits lines like str.splitlines(): on '\n' but also on '\r', '\x0b', '\x0c', '\x1c', '\x85', '\u2028', ...
+        replacement = ' '.join(replacement.splitlines())
         replacement = f"`{replacement}`"
     
     if replacement is not None:
